@@ -6,6 +6,7 @@
 import LyonVerif.Drive.Common
 import LyonVerif.Model.Tess.StrokeParts
 import LyonVerif.Model.Tess.StrokeFull
+import LyonVerif.Model.Tess.StrokeAttrs
 
 namespace Lyon.Drive.C05
 open Lyon Lyon.Drive Lyon.Stroke
@@ -228,10 +229,11 @@ def toPathEv : IdEv α → PathEv α
   | .cubic c1 c2 _ p => .cubic c1 c2 p
   | .end_ c => .end_ c
 
-def fOutAttrs (store : Nat → List α) (o : Out α) : String :=
+/-- every vertex with the attributes its `interpolated_attributes()` reports: `attrs` is the
+sequence computed by `Full.attrsSeq` (the cached buffer of `StrokeVertexData` included) -/
+def fOutAttrs (attrs : List (List α)) (o : Out α) : String :=
   unwords (["V", toString o.verts.length]
-    ++ o.verts.map (fun d => let a := interpolatedAttributes store d.src
-                             unwords ([fVtx d.read, "A", toString a.length] ++ a.map fx))
+    ++ (o.verts.zip attrs).map (fun (d, a) => unwords ([fVtx d.read, "A", toString a.length] ++ a.map fx))
     ++ ["T", toString o.tris.length] ++ o.tris.map fTri)
 
 def fulle [HasIx α] [Asin α] [FlatConst α] (v : Array String) : String :=
@@ -241,9 +243,14 @@ def fulle [HasIx α] [Asin α] [FlatConst α] (v : Array String) : String :=
   let (evs, attrs) : List (IdEv α) × List (Nat × List α) := rdEvents v nattr (rdNat v 9) 10
   let store : Nat → List α := fun id => ((attrs.find? (fun a => a.1 == id)).map (·.2)).getD []
   let e := Env.new o HasIx.ix
+  -- `tessellate_fw`: fixed width forced, ids count the events, no attribute store
+  let eFw : Env α := { e with o := { e.o with varWidth := false } }
   let r := if fwIds then tessellateFw e (evs.map toPathEv) else tessellateIds e store evs
   match r with
-  | some out => fOutAttrs (if fwIds then fun _ => [] else store) out
+  | some out =>
+    let attrs := if fwIds then attrsSeq (fun _ => []) (capRanges eFw (fun _ => []) (assignIds (evs.map toPathEv) 0)) out.verts 0 ⟨false, []⟩
+                 else attrsSeq store (capRanges e store evs) out.verts 0 ⟨false, []⟩
+    fOutAttrs attrs out
   | none => "panic"
 
 end Full
